@@ -20,7 +20,7 @@ struct Node {
 fn gen_shape(ch: &mut Choices, budget: &mut usize, depth: usize, shape: u8) -> Node {
     *budget = budget.saturating_sub(1);
     let tag = ch.pick(&[0x11u16, 0x2e, 0x34, 0x13, 0x0b, 0x24, 0x39, 0x05, 0x4109, 0xffff]);
-    let palette = ch.below(6) as u8;
+    let palette = ch.below(8) as u8;
     let nchildren = if *budget == 0 || depth > 40 {
         0
     } else {
@@ -71,6 +71,10 @@ fn attrs_for(palette: u8, sib: Option<u16>) -> Vec<(u16, u16, i64)> {
         2 => vec![(0x3b, F_UDATA, 0), (0x0b, F_DATA1, 0)],
         3 => vec![(0x49, F_REF4, 0), (0x03, F_STRING, 0)],
         4 => vec![(0x3f, F_FLAG_PRESENT, 0), (0x1c, F_IMPLICIT_CONST, -7), (0x02, F_EXPRLOC, 0)],
+        // DW_FORM_indirect after a fixed-size attribute and after a block (skipping entries must resolve the form at
+        // the right place)
+        6 => vec![(0x3a, F_DATA2, 0), (0x0b, F_INDIRECT, 0), (0x03, F_STRING, 0)],
+        7 => vec![(0x1c, F_BLOCK1, 0), (0x3b, F_INDIRECT, 0), (0x0b, F_DATA1, 0)],
         _ => vec![(0x03, F_STRP, 0), (0x3a, F_DATA2, 0), (0x49, F_REF_UDATA, 0)],
     };
     if let Some(f) = sib {
@@ -89,6 +93,16 @@ fn vals_for(ch: &mut Choices, attrs: &[(u16, u16, i64)], nids: usize) -> Vec<AV>
         .iter()
         .map(|(name, form, _)| match (*name, *form) {
             (0x01, _) => AV::Sibling,
+            (_, F_INDIRECT) => match ch.below(4) {
+                0 => AV::Indirect(F_DATA4, Box::new(AV::U(ch.u32() as u64))),
+                1 => AV::Indirect(F_UDATA, Box::new(AV::U(ch.biased(40)))),
+                2 => AV::Indirect(F_STRING, Box::new(AV::Bytes(vec![b'q'; ch.below(5)]))),
+                _ => AV::Indirect(F_DATA1, Box::new(AV::U(ch.u8() as u64))),
+            },
+            (_, F_BLOCK1) => {
+                let n = ch.below(7);
+                AV::Bytes(ch.bytes(n))
+            }
             (_, F_STRING) => {
                 let n = ch.below(6);
                 AV::Bytes((0..n).map(|_| b'a' + ch.u8() % 26).collect())
@@ -113,7 +127,7 @@ fn gen_forest(ch: &mut Choices) -> ForestCase {
     let nunits = 1 + ch.below(3);
     let scheme = ch.below(6) as u8;
     let sib_mode = [SibMode::None, SibMode::AllParents, SibMode::Some][ch.below(3)];
-    let sib_form = ch.pick(&[F_REF4, F_REF4, F_REF2, F_REF8, F_REF_UDATA, F_REF1]);
+    let sib_form = ch.pick(&[F_REF4, F_REF4, F_REF2, F_REF8, F_REF_UDATA, F_REF1, F_REF_ADDR]);
     let share_abbrevs = ch.bool();
     let mut next_id = 0usize;
     let mut units = Vec::new();
@@ -424,6 +438,22 @@ fn check_unit(header: &UnitHeader<Rdr>, rec: &UnitRec, spec: &UnitSpec, da: &Deb
             ensure_eq!(raw.next_offset().0, e.end, "c02/raw/advance", "entry #{}", i);
         }
         ensure!(raw.is_empty(), "c02/raw/trailing-data", "cursor not at the end of the unit after all {} entries", ents.len());
+        // the same walk without decoding attributes: read_abbreviation + skip_attributes
+        let mut raw = header.entries_raw(&abbrevs, None).map_err(|er| Failure { sig: "c02/raw/open".into(), detail: format!("{er:?}") })?;
+        for (i, e) in ents.iter().enumerate() {
+            ensure_eq!(raw.next_offset().0, e.offset, "c02/raw-skip/next_offset", "entry #{}", i);
+            ensure_eq!(raw.next_depth(), e.depth, "c02/raw-skip/next_depth", "entry #{}", i);
+            match raw.read_abbreviation().map_err(|er| Failure { sig: "c02/raw-skip/read_abbreviation".into(), detail: format!("entry #{} at {:#x}: {:?}", i, e.offset, er) })? {
+                Some(ab) => {
+                    ensure!(e.id.is_some(), "c02/raw-skip/null-flag", "entry #{}", i);
+                    ensure_eq!((ab.code(), ab.tag().0, ab.has_children()), (e.abbrev_code, e.tag, e.children), "c02/raw-skip/abbreviation", "entry #{}", i);
+                    raw.skip_attributes(ab.attributes()).map_err(|er| Failure { sig: "c02/raw-skip/skip_attributes".into(), detail: format!("entry #{} at {:#x}: {:?}", i, e.offset, er) })?;
+                }
+                None => ensure!(e.id.is_none(), "c02/raw-skip/null-flag", "entry #{}", i),
+            }
+            ensure_eq!(raw.next_offset().0, e.end, "c02/raw-skip/advance", "entry #{} at {:#x}", i, e.offset);
+        }
+        ensure!(raw.is_empty(), "c02/raw-skip/trailing-data", "");
     }
     // ---- (2) next_dfs and (3) next_entry
     {
@@ -566,6 +596,30 @@ fn check_unit(header: &UnitHeader<Rdr>, rec: &UnitRec, spec: &UnitSpec, da: &Deb
             }
             let want: Vec<usize> = children_of(ents, i).iter().map(|k| ents[*k].offset).collect();
             ensure_eq!(kids, want, "c02/tree/direct-children", "children of {:#x} without descending", e.offset);
+            // the same list when every child's subtree is entered and abandoned part-way (first grandchild, and its
+            // first child): what was visited below must not change which siblings follow
+            let mut tree = header.entries_tree(&abbrevs, Some(UnitOffset(e.offset))).map_err(|er| Failure { sig: "c02/tree/open".into(), detail: format!("{er:?}") })?;
+            let root = tree.root().map_err(|er| Failure { sig: "c02/tree/root".into(), detail: format!("{er:?}") })?;
+            let mut it = root.children();
+            let mut kids = Vec::new();
+            loop {
+                match it.next() {
+                    Ok(Some(c)) => {
+                        kids.push(c.entry().offset().0);
+                        let mut gi = c.children();
+                        if let Ok(Some(g)) = gi.next() {
+                            let mut ggi = g.children();
+                            let _ = ggi.next();
+                        }
+                    }
+                    Ok(None) => break,
+                    Err(er) => fail!("c02/tree/children-error", "{:?}", er),
+                }
+                if kids.len() > ents.len() {
+                    fail!("c02/tree/unbounded", "");
+                }
+            }
+            ensure_eq!(kids, want, "c02/tree/children-after-partial-descent", "children of {:#x} when each child's subtree is entered and abandoned part-way", e.offset);
         }
     }
     // positioned reads outside the entries
@@ -811,7 +865,7 @@ impl Prop for C02 {
         check_code_sequence(&code_sequence(u64::from_le_bytes(a), data[0] as usize), cx)
     }
     fn rule(&self) -> &'static str {
-        "random forests: 1-3 units per section (.debug_info with every DWARF 5 unit type and v2-4 compile units; .debug_types with v2-4 type units), each a generated tree of 1-40 entries (shapes: random, deep chain, wide, leaf-only, empty child lists, trailing null padding), units differing in version/format/address size, shared or separate abbreviation tables, abbreviation code schemes {sequential, permuted declaration order, sparse, huge >= 2^63, dense-sparse-dense, aliasing modulo 2^32}, DW_AT_sibling none / on all parents / on a subset in forms ref1/2/4/8/udata. Oracle: the assembler's record (offset, depth, tag, children flag, attribute count, parent) per entry. Compared: raw read_entry with next_offset/next_depth, next_dfs, next_entry incl. nulls, next_sibling from every parent, full and children-only walks of the tree iterator from every entry, entry()/entries_raw/entries_tree/entries_at_offset positioned at every entry and null, header accessors and offset conversions, Abbreviations::get for present and absent (+-1, +-2^32, |2^63) codes; separate mode: tables with a duplicated code must be rejected; exhaustive mode: every declaration order of up to 5 (thorough: 7) codes over {1..6, 2^40, 2^64-1} is rejected exactly when a code repeats and otherwise maps every code to its own declaration. Non-trivial = >=5 entries, depth >=3 and a node with >=2 children that themselves have children; distinct by choice string."
+        "random forests: 1-3 units per section (.debug_info with every DWARF 5 unit type and v2-4 compile units; .debug_types with v2-4 type units), each a generated tree of 1-40 entries (shapes: random, deep chain, wide, leaf-only, empty child lists, trailing null padding), units differing in version/format/address size, shared or separate abbreviation tables, abbreviation code schemes {sequential, permuted declaration order, sparse, huge >= 2^63, dense-sparse-dense, aliasing modulo 2^32}, DW_AT_sibling none / on all parents / on a subset in forms ref1/2/4/8/udata. Oracle: the assembler's record (offset, depth, tag, children flag, attribute count, parent) per entry. Compared: raw read_entry with next_offset/next_depth, the same walk with read_abbreviation + skip_attributes (attributes incl. DW_FORM_indirect after fixed-size and block forms), next_dfs, next_entry incl. nulls, next_sibling from every parent, full and children-only walks of the tree iterator from every entry, entry()/entries_raw/entries_tree/entries_at_offset positioned at every entry and null, header accessors and offset conversions, Abbreviations::get for present and absent (+-1, +-2^32, |2^63) codes; separate mode: tables with a duplicated code must be rejected; exhaustive mode: every declaration order of up to 5 (thorough: 7) codes over {1..6, 2^40, 2^64-1} is rejected exactly when a code repeats and otherwise maps every code to its own declaration. Non-trivial = >=5 entries, depth >=3 and a node with >=2 children that themselves have children; distinct by choice string."
     }
     fn assumptions(&self) -> Vec<&'static str> {
         vec![
